@@ -547,9 +547,13 @@ func genSim(t *core.Tape, o simOpts) *program {
 		{k: sEmit, tag: "handler", exps: []*expr{{k: eLocal, name: "a"}}},
 		{k: sReturn, exps: []*expr{{k: eLocal, name: "a"}, cst(intv(7))}},
 	}})
-	if t.Chance(1, 3) {
+	switch t.Choose(6) {
+	case 0, 1:
 		// handler that replaces the value
 		p.funcs[0].body[1] = &stmt{k: sReturn, exps: []*expr{cst(strv("replaced"))}}
+	case 2:
+		// ... with a multi-valued tail after the replacement: only the first value counts
+		p.funcs[0].body[1] = &stmt{k: sReturn, exps: []*expr{cst(strv("replaced")), {k: eBuiltin, name: "select#", args: []*expr{{k: eLocal, name: "a"}, cst(intv(5))}}}}
 	}
 	for i := 1; i <= g.nfun; i++ {
 		g.fidx = i
